@@ -32,6 +32,26 @@ Theorem C15_rows_truthful_unit : forall (E : env) (cf : cfg (eF E)) k0 va0 s0 s,
 Proof. exact rows_truthful_unit. Qed.
 Print Assumptions C15_rows_truthful_unit.
 
+(* Foreign calls.  [reach] also contains steps in which everything but the rows
+   already logged changes arbitrarily (reach_havoc): any other public entry point
+   of Optimize (run_simplex, run_nelder_mead, run_ls_trf, run_bfgs, run_direct,
+   status tables, views of the merit function, direct assignments by the user);
+   C15_rows_truthful therefore says that no such call can make a later row
+   untruthful.  The reason is the frame property below: the row add_point_to_log
+   writes is a function of the container values and the active flags only - no
+   other field of the state (a flag left behind by an earlier call, solver x,
+   last-evaluation fields, counters, earlier rows) influences it. *)
+Theorem C15_foreign_calls_frame : forall (E : env) (cf : cfg (eF E)) tg s1 s2,
+  knobs s1 = knobs s2 -> va s1 = va s2 -> ta s1 = ta s2 ->
+  match add_point E cf tg s1, add_point E cf tg s2 with
+  | Ok a, Ok b => exists r, log a = log s1 ++ [r] /\ log b = log s2 ++ [r] /\ knobs a = knobs b
+  | Err e1 a, Err e2 b => e1 = e2 /\ knobs a = knobs b /\ log a = log s1 /\ log b = log s2
+  | Div, Div => True
+  | _, _ => False
+  end.
+Proof. exact add_point_frame. Qed.
+Print Assumptions C15_foreign_calls_frame.
+
 (* reload(i) returning normally: the active flags are the row's, every knob is
    the row's value or its round trip (exactly: the values the merit function
    writes for x = k/w), and the row it appends has the row's knobs and masks and
